@@ -45,7 +45,11 @@ SplitVerdict(sp) ==
    IF sp.exc = "malformed" THEN "split does not return n pairs (index, 16 bytes)"
    ELSE IF sp.exc # "none" THEN "split raised " \o sp.exc
    ELSE IF ~(IsB16(sp.secret) /\ \A i \in 1..Len(sp.tape) : IsB16(sp.tape[i])) \/ Len(sp.tape) # sp.k - 1 THEN "harness: malformed split record"
-   ELSE IF sp.draws # [i \in 1..(sp.k - 1) |-> 16] \/ sp.unused # 0 THEN "coefficients are not k-1 draws of 16 bytes from the random source"
+   \* The random source is a byte stream (the tape); how many bytes each request takes is the implementation's business.  The k-1
+   \* coefficients are the consecutive 16-byte blocks of the bytes drawn: fewer than 16 (k-1) bytes drawn means that some coefficient
+   \* does not come from the source; more cannot be mapped to coefficients by this model (no statement: machinery failure).
+   ELSE IF sp.drawn < 16 * (sp.k - 1) THEN "fewer than 16 (k-1) bytes were drawn from the random source: not every coefficient comes from it"
+   ELSE IF sp.drawn > 16 * (sp.k - 1) THEN "harness: more than 16 (k-1) bytes drawn; the tape model does not say which of them are the coefficients"
    ELSE IF Len(sp.shares) # sp.n \/ \E i \in 1..Len(sp.shares) : sp.shares[i][1] # i \/ ~IsB16(sp.shares[i][2]) THEN "shares are not indexed 1..n with 16-byte values"
    ELSE LET tape == [i \in 1..(sp.k - 1) |-> B(sp.tape[i])]
             sec == B(sp.secret)
